@@ -22,11 +22,14 @@ func c16healths(kind string) []string {
 	case "udp":
 		return []string{"healthy", "silent", "insecure"}
 	case "unix":
-		return []string{"healthy", "refused", "silent", "status-error", "insecure"}
+		return []string{"healthy", "refused", "silent", "status-error", "insecure", "stalls-in-starttls", "silent-after-announce"}
 	case "tcp+tls":
 		return []string{"healthy", "refused", "blackhole", "silent"}
 	}
-	return []string{"healthy", "refused", "blackhole", "silent", "status-error", "insecure"}
+	if kind == "ws" {
+		return []string{"healthy", "refused", "blackhole", "silent", "status-error", "insecure"}
+	}
+	return []string{"healthy", "refused", "blackhole", "silent", "status-error", "insecure", "stalls-in-starttls", "silent-after-announce"}
 }
 
 // scripted failing endpoints
@@ -56,6 +59,26 @@ func startScripted(r *Run, e *c16entry) {
 				buf := make([]byte, 4096)
 				switch e.Health {
 				case "silent":
+					for {
+						if _, err := c.Read(buf); err != nil {
+							return
+						}
+					}
+				case "silent-after-announce":
+					// answers the first request properly, then never answers the upgrade
+					readBlock(c)
+					c.Write([]byte("HTTP/1.1 200 OK\r\nServer: socketace/scripted\r\nProtocol-Version: v2.0.0\r\n\r\n"))
+					for {
+						if _, err := c.Read(buf); err != nil {
+							return
+						}
+					}
+				case "stalls-in-starttls":
+					// offers StartTLS, accepts the upgrade, then goes silent inside the TLS handshake
+					readBlock(c)
+					c.Write([]byte("HTTP/1.1 200 OK\r\nServer: socketace/scripted\r\nCapabilities: StartTLS\r\nProtocol-Version: v2.0.0\r\n\r\n"))
+					readBlock(c)
+					c.Write([]byte("HTTP/1.1 101 Switching Protocols\r\nConnection: upgrade\r\nUpgrade: socketace/v2.0.0\r\nProtocol-Version: v2.0.0\r\n\r\n"))
 					for {
 						if _, err := c.Read(buf); err != nil {
 							return
@@ -148,7 +171,7 @@ func scenarioC16(r *Run) {
 		return
 	}
 	for _, e := range entries {
-		if e.Health == "silent" || e.Health == "status-error" {
+		if e.Health == "silent" || e.Health == "status-error" || e.Health == "stalls-in-starttls" || e.Health == "silent-after-announce" {
 			startScripted(r, e)
 		}
 	}
@@ -180,7 +203,7 @@ func scenarioC16(r *Run) {
 			switch e.Health {
 			case "blackhole":
 				allow += 130 * time.Second
-			case "silent":
+			case "silent", "stalls-in-starttls", "silent-after-announce":
 				allow += 120 * time.Second
 				unbounded = "silent"
 			default:
